@@ -17,6 +17,10 @@ def tagged_request(rng, c, seq, body=None, expect=False, limit=51200):
     hs = []
     if rng.random() < 0.3:
         hs.append(b'X-Tag: %d' % seq)
+    if rng.random() < 0.25:
+        # headers the crate knows with values it does not support: ignored, the request is served as usual
+        hs.append(rng.choice([b'Accept: */*', b'Accept: text/html', b'Content-Type: text/html', b'Transfer-Encoding: gzip',
+                              b'Accept-Encoding: gzip, deflate', b'accept:*/*', b'Accept-Encoding: br']))
     if body is None:
         body = b''
         if m != b'GET' and rng.random() < 0.5:
@@ -541,6 +545,24 @@ class C07(ServerProp):
         # responses larger than the socket buffer (short writes on the real socket), also with a second answer queued
         # behind the partially written one
         out += large_cases(self, rng, tier, 4, 40)
+        # three or more pipelined requests, some answered, a single poll (which sends one answer), the rest answered,
+        # then everything is delivered: the client must see the answers in the order they were supplied
+        for _ in range(150 if tier == 'quick' else 5000):
+            h = Hist(rng)
+            cs = [h.connect() for _ in range(rng.randint(1, 2))]
+            h.ops.append([11, 4])
+            for c in cs:
+                h.request(c, pipelined=rng.choice([3, 4, 5]), poll_between=False)
+            h.ops.append([11, 8])
+            for _ in range(rng.randint(2, 3)):
+                h.ops.append([12, rng.randint(0, 7)])
+            h.ops.append([6])
+            for _ in range(rng.randint(1, 3)):
+                h.ops.append([12, rng.randint(0, 7)])
+                if rng.random() < 0.5:
+                    h.ops.append([6])
+            h.finish()
+            out.append(self.mk(h, 0, {'kind': 'pipelined-answers-around-a-poll'}))
         return out
 
     def oracle(self, cases, impl):
@@ -730,6 +752,8 @@ class C09(ServerProp):
             h.ops.append([6])
             h.witness = w
             out.append(self.mk(h, 0, {'kind': 'unwritable-client-answered-quietly', 'witness': w}))
+        # responses larger than the socket buffer, delivered over many short writes while the client reads in rounds
+        out += large_cases(self, rng, tier, 2, 20)
         return out
 
     def oracle(self, cases, impl):
@@ -739,6 +763,9 @@ class C09(ServerProp):
             bad = [e for e in a['errs'] if ' poll ' in e[1] or e[1].startswith(('hang', 'panic'))]
             if bad:
                 v.append(self.viol(t, 'the polling function (and every other call) keeps returning normally', bad[0][1], 'poll-failed'))
+                continue
+            if m.get('kind') == 'large-response':
+                large_oracle(self, t, m, a, v)
                 continue
             w = m['witness']
             n = m['sent'].get(w, m['sent'].get(str(w), 0))
@@ -822,6 +849,39 @@ class C10(ServerProp):
             h.drain(late)
             h.finish()
             out.append(self.mk(h, 0, {'kind': 'unwritable-client-pipelined', 'late': late}))
+        # a response larger than the socket buffer is half written to a slow reader while the table fills up, the other
+        # nine clients leave and a newcomer arrives: the newcomer is served, the slow reader still gets everything
+        # (outside the executable kernel model, decided on the implementation alone)
+        for _ in range(3 if tier == 'quick' else 30):
+            h = Hist(rng)
+            slow = h.connect()
+            h.ops.append([11, 4])
+            h.request(slow, poll_between=False)
+            h.ops.append([11, 8])
+            size = rng.choice([300000, 700000])
+            body = (b'0123456789abcdef' * (size // 16 + 1))[:size]
+            h.ops.append([7, 0, [1, 1, [[0, body]]]])
+            h.ops.append([11, 6])
+            others = [h.connect() for _ in range(9)]
+            h.ops.append([11, 14])
+            h.ops.append([5, slow])
+            h.ops.append([11, 6])
+            for c in others:
+                h.ops.append([2, c])
+                h.alive.remove(c)
+            h.ops.append([11, 6])
+            h.ops.append([11, 6])
+            late = h.connect()
+            h.ops.append([11, 4])
+            h.request(late, poll_between=False)
+            h.ops.append([11, 6])
+            h.ops.append([12, 0])
+            h.ops.append([11, 6])
+            h.ops.append([5, late])
+            for _ in range(size // 60000 + 6):
+                h.ops.append([11, 6])
+                h.ops.append([5, slow])
+            out.append(self.mk(h, 0, {'kind': 'large-at-capacity', 'oracle_only': True, 'size': size, 'slow': slow, 'newcomer': late}))
         return out
 
     def oracle(self, cases, impl):
@@ -831,6 +891,16 @@ class C10(ServerProp):
             a = self.analyse(t, lines)
             if a['errs']:
                 v.append(self.viol(t, 'no call fails', a['errs'][0][1], 'call-failed'))
+                continue
+            if m.get('kind') == 'large-at-capacity':
+                big = (b'0123456789abcdef' * (m['size'] // 16 + 1))[:m['size']]
+                rs = pyhttp.read_all(a['rx'].get(m['slow'], b''))
+                if rs is None or [b for (_, _, b) in rs] != [big]:
+                    v.append(self.viol(t, 'the slow reader receives its %d-byte response in full' % m['size'],
+                                       'received %d bytes' % len(a['rx'].get(m['slow'], b'')), 'large'))
+                elif b'echo:/c%d/r0' % m['newcomer'] not in a['rx'].get(m['newcomer'], b''):
+                    v.append(self.viol(t, 'capacity is regained: the newcomer (client %d) is served' % m['newcomer'],
+                                       repr(a['rx'].get(m['newcomer'], b''))[:200], 'regain'))
                 continue
             end = a['end'] or ''
             mm = re.search(r'nconn=(\d+)', end)
@@ -901,6 +971,27 @@ class C18(ServerProp):
             hk.ops = ops + [[9], [6], [6], [11, 3], [6]]
             hk.sent = {}
             out.append(self.mk(hk, 1, {'kind': 'kill-at-capacity-all-ready', 'pair': pair, 'at': at, 'role': 'kill'}))
+        # unsent output that does not fit the socket buffer: a response is half written, the client reads what has
+        # arrived (the connection is writable again), then the signal (outside the executable kernel model: oracle only)
+        for _ in range(3 if tier == 'quick' else 30):
+            pair += 1
+            h = Hist(rng)
+            a0 = h.connect()
+            h.ops.append([11, 4])
+            h.request(a0, pipelined=rng.choice([1, 2]), poll_between=False)
+            h.ops.append([11, 8])
+            size = rng.choice([300000, 700000])
+            body = (b'0123456789abcdef' * (size // 16 + 1))[:size]
+            h.ops.append([7, 0, [1, 1, [[0, body]]]])
+            h.ops.append([11, 6])
+            if rng.random() < 0.7:
+                h.ops.append([5, a0])
+            at = len(h.ops)
+            hk = Hist(rng)
+            hk.ops = h.ops + [[9], [6], [6], [11, 3], [5, a0], [6], [6]]
+            hk.sent = {}
+            out.append(self.mk(hk, 1, {'kind': 'kill-with-large-response-half-written', 'pair': pair, 'at': at, 'role': 'kill',
+                                       'oracle_only': True}))
         for _ in range(450 if tier == 'quick' else 15000):
             r = rng.random()
             h = well_behaved(rng) if r < 0.4 else (adversarial(rng) if r < 0.7 else capacity(rng))
